@@ -271,6 +271,22 @@ fn member(rng: &mut Rng, luau: bool) -> String {
 
 pub fn program(rng: &mut Rng, luau: bool) -> String {
     let mut out = String::new();
+    if rng.chance(1, 8) {
+        // one large contiguous group (sorting algorithms switch strategy with the length; the 20
+        // names guarantee duplicate keys, whose relative order must survive)
+        let n = *rng.pick(&[21usize, 24, 33, 48, 64, 100]);
+        if rng.chance(1, 3) {
+            out.push_str("local first = 1\n");
+        }
+        for _ in 0..n {
+            out.push_str(&member(rng, luau));
+            out.push('\n');
+        }
+        if rng.chance(1, 2) {
+            out.push_str("return A\n");
+        }
+        return out;
+    }
     let n = rng.range(3, 14);
     let mut region_open = false;
     let mut k = 0;
